@@ -30,6 +30,7 @@ PRELUDE_ORDER = [
     "60_ctoption_repr.rs",
     "60_shares.rs",
     "61_combine.rs",
+    "62_serde_bare.rs",
     "70_misc.rs",
     "80_time.rs",
     "85_xof_leb.rs",
